@@ -198,6 +198,9 @@ func checkC14(c *Ctx) {
 	}
 	liveSimulation(c, "C14.3", "", "", true)
 	retypingRule(c, "C14.5", "")
+	c.Rule("C14.6", "nothing but the per-byte decoder and the per-class filter decides what is delivered: EachMessage applies the step to every byte of every chunk (no chunk-level shortcut that depends on an option), and each Listen configures the decoder from its own options (= C04.1, C17.4)", 8)
+	initialAndChunking(c, "C14.6")
+	c.include(checkC17, map[string]string{"C17.4": "C14.6"})
 	// ---- filter closures
 	fcs := filterClosures(p)
 	if len(fcs) < 2 {
